@@ -95,3 +95,23 @@ def c04_upcast_downcast_cancel(site, w):
     if w.get("rule") not in ("upcast", "downcast"):
         return False
     return "(upcast (downcast" in w.get("before", "")
+
+
+_LOGMAX = {"complex64": 88.72283905206835, "complex128": 709.782712893384}
+
+
+def c01_exp_neginf_real_inf_imag(site, w):
+    """exp(-inf + i*(+-inf)): |exp z| = e^-inf = 0 whatever the argument, but 0 * cos(inf) = 0 * nan = nan"""
+    if site != "spurious-nan:exp":
+        return False
+    _, ay, x, _ = _xy(w)
+    return x == float("-inf") and ay == float("inf")
+
+
+def c01_exp_half_argument_overflows(site, w):
+    """exp(x + iy) with x > 2*log(largest): the overflow path exp(x/2)*trig(y)*exp(x/2) overflows in exp(x/2) itself,
+    giving +-inf for a component e^x * sin(y) (or cos) that is finite because |trig(y)| is tiny"""
+    if site not in ("spurious-inf:exp", "spurious-nan:exp"):
+        return False
+    ax, ay, x, y = _xy(w)
+    return x > 2 * _LOGMAX[w["dtype"]] and x != float("inf") and ay != float("inf")
